@@ -262,6 +262,8 @@ type vE2EStub struct {
 }
 
 func (s *vE2EStub) OpenTunnel(ctx context.Context, opts ...grpc.CallOption) (grpc.BidiStreamingClient[tunnelpb.ClientToServer, tunnelpb.ServerToClient], error) {
+	// a client interceptor on the connection adds a header: it is on the wire and in the stream's context
+	ctx = metadata.AppendToOutgoingContext(ctx, "added-by-interceptor", "token")
 	n := vNewNet[tunnelpb.ClientToServer, tunnelpb.ServerToClient](ctx, s.capacity, s.strip)
 	s.fwd = n
 	verifGo("network-server", func() {
@@ -865,9 +867,13 @@ func verifH_E2E() {
 	if withReqMD {
 		ctx = metadata.NewOutgoingContext(ctx, reqMD.Copy())
 	}
-	ctx, cancel := context.WithCancel(ctx)
+	// (the caller cancels with a cause, as context.WithCancelCause allows: the outcome is Canceled all the same)
+	ctx, cancelCause := context.WithCancelCause(ctx)
+	cancel := func() { cancelCause(errors.New("the user went away")) }
 	defer cancel()
-	var hdrT, tlrT metadata.MD
+	// the call-option targets are variables the caller reuses: whatever an earlier call left in them is replaced
+	hdrT, tlrT := metadata.MD{"stale": {"header of an earlier call"}}, metadata.MD{"stale": {"trailer of an earlier call"}}
+	var usedCh2 TunnelChannel // the option may be given twice (the application's and an interceptor's)
 	var callPeer peer.Peer
 	var usedCh TunnelChannel
 	var got [][]byte
@@ -911,14 +917,14 @@ func verifH_E2E() {
 			// a unary call is one blocking operation: the event strikes from another goroutine
 			verifGo("striker", func() { strike(when) })
 		}
-		final = ch.Invoke(ctx, method, &wrapperspb.BytesValue{Value: reqs[0]}, resp, grpc.Header(&hdrT), grpc.Trailer(&tlrT), WithTunnelChannel(&usedCh), grpc.Peer(&callPeer))
+		final = ch.Invoke(ctx, method, &wrapperspb.BytesValue{Value: reqs[0]}, resp, grpc.Header(&hdrT), grpc.Trailer(&tlrT), WithTunnelChannel(&usedCh), grpc.Peer(&callPeer), WithTunnelChannel(&usedCh2))
 		if final == nil {
 			got = append(got, resp.Value)
 		}
 		finished = true
 	} else {
 		var err error
-		st, err = ch.NewStream(ctx, &grpc.StreamDesc{ClientStreams: cs, ServerStreams: ss}, method, grpc.Header(&hdrT), grpc.Trailer(&tlrT), WithTunnelChannel(&usedCh))
+		st, err = ch.NewStream(ctx, &grpc.StreamDesc{ClientStreams: cs, ServerStreams: ss}, method, grpc.Header(&hdrT), grpc.Trailer(&tlrT), WithTunnelChannel(&usedCh), WithTunnelChannel(&usedCh2))
 		if binInvalid && (binWhere == 0 || binWhere == 4) && err != nil {
 			// the RPC is refused at the start because its metadata cannot be carried (F9): the
 			// refusal must stay an affair of this RPC - the rest of the harness checks the tunnel
@@ -933,6 +939,8 @@ func verifH_E2E() {
 		tmd, ok := TunnelMetadataFromOutgoingContext(st.Context())
 		if !reverse {
 			verifAssert(ok && len(tmd["opener"]) == 1 && tmd["opener"][0] == "me", "C17.e2e-caller-can-recover-the-opening-metadata")
+			// ... all of it: also what a client interceptor added to the tunnel-opening call (the handler sees it, too)
+			verifAssert(len(tmd["added-by-interceptor"]) == 1, "C17.e2e-opening-metadata-is-what-went-on-the-wire")
 		}
 		strike(0)
 		sendFailed := false
@@ -1009,7 +1017,7 @@ afterCall:
 	} else {
 		// cancelled or cut: exactly one of the two legal outcomes
 		code := status.Code(final)
-		if app.returns == 1 && app.code != codes.OK && code == app.code && app.sendErrs == 0 && app.sawEOF {
+		if app.returns == 1 && app.code != codes.OK && code == app.code && app.sendErrs == 0 && app.sawEOF && !(event == 1 && code == codes.Canceled) {
 			handlerOutcome = true // the handler ran to its end and its own error got through first
 		} else if event == 1 {
 			verifCover("e2e-cancelled")
@@ -1038,6 +1046,9 @@ afterCall:
 			verifAssert(len(app.inMD) == 0, "C02.e2e-no-request-metadata-means-none")
 		}
 		verifAssert(app.tunnelMDok && len(app.tunnelMD["opener"]) == 1 && app.tunnelMD["opener"][0] == "me", "C17.e2e-handler-sees-the-opening-metadata")
+		if !reverse {
+			verifAssert(len(app.tunnelMD["added-by-interceptor"]) == 1, "C17.e2e-handler-sees-the-opening-metadata-as-it-went-on-the-wire")
+		}
 		if !reverse {
 			verifAssert(app.marker == any("interceptor-value"), "C17.e2e-handler-context-derives-from-the-tunnel-opening-call")
 			verifAssert(app.peer == vNetPeer, "C17.e2e-handler-sees-the-peer-of-the-tunnel-opening-call")
@@ -1104,6 +1115,7 @@ afterCall:
 	}
 	// (a call refused because the tunnel was already closed never had a tunnel)
 	verifAssert(usedCh == tch || ((event == 2 || event == 4) && usedCh == nil && len(app.calls) == 0), "C17.e2e-with-tunnel-channel-names-the-tunnel")
+	verifAssert(usedCh2 == usedCh, "C17.e2e-every-with-tunnel-channel-option-of-a-call-is-honoured")
 
 	// ---- C14: the finished RPC left nothing behind (unless the tunnel itself was closed under it)
 	srvSide := func() int {
